@@ -28,7 +28,7 @@ def bounds(tier):
                                 f"datagrams per attempt (each any segment of the chain, or none), retry count <= 2",
             "targeted 3-segment faults (quick)": "length 79..117, first attempt delivers (0,2), (1,2) or (2), "
                                                  "then any <=3 deliveries in the retry",
-            "fault-free twin": f"all (start,length) with length <= {200 if q else 390} (up to {6 if q else 10} segments), chain "
+            "fault-free twin": f"all (start,length) with length <= {200 if q else 312} (up to {6 if q else 8} segments), chain "
                                "delivered in order; longer transfers are outside the bound (the full 1024-byte transfer is "
                                "exercised concretely by C20's handshake and C19's shipped-file units)",
             "timing": "PROTOCOL_TIMEOUT scaled to 0.25 s of virtual time (3 polls per attempt)"}
@@ -320,7 +320,8 @@ def units(tier):
     q = tier == "quick"
     yield Unit("threaded.two-transfers", threaded_two_transfers, fresh_checks=True, max_depth=2000)
     yield Unit("threaded.two-structures", threaded_two_structures, fresh_checks=True, max_depth=2000)
-    ffmax = 200 if q else 390
+    # (fault-free twin: beyond 8 segments single queries ran into the solver's time limit - outside the claim)
+    ffmax = 200 if q else 312
     # fault-free twin, split by segment count through the length range
     step = 39
     lo = 1
